@@ -255,12 +255,17 @@ pub enum FileSpec {
     Sparse(u64),
     /// No such file.
     Missing,
+    /// A directory (opens read-only, has a size, cannot be mapped).
+    Dir,
+    /// A file of this many bytes that is unlinked while the harness holds it open; it is mapped through /proc/self/fd/N.
+    Unlinked(u64),
 }
 
 #[derive(Clone, Debug, Serialize, Deserialize, PartialEq, Eq)]
 pub enum LOp {
-    /// Map `file`; `refuse`: make `mmap` fail with this errno (M1).
-    Map { file: usize, mutable: bool, refuse: Option<i32> },
+    /// Map `file`; `refuse`: make `mmap` fail with this errno (M1; -1 = a real refusal provoked with RLIMIT_AS);
+    /// `sticky`: every mmap call during this `MemoryMap::new` is refused, not only the first.
+    Map { file: usize, mutable: bool, refuse: Option<i32>, #[serde(default)] sticky: bool },
     /// Compare the whole slice of the map in `slot` with the file content.
     Read { slot: usize },
     /// Write `n` elements through the mutable map in `slot`.
@@ -286,8 +291,10 @@ impl MapLife {
         let nfiles = rng.range_usize(1, 3);
         let mut files = Vec::new();
         for _ in 0..nfiles {
-            files.push(match rng.below(20) {
+            files.push(match rng.below(22) {
                 0 => FileSpec::Missing,
+                20 => FileSpec::Dir,
+                21 => FileSpec::Unlinked(*rng.pick(&[8u64, 4096, 4104, 32776])),
                 1 | 4 if big => FileSpec::Sparse(*rng.pick(&[64u64 << 20, (64 << 20) + 4104, 1 << 30, 1 << 30, (5u64 << 30) + 4104])),
                 2 => FileSpec::Size(8 * rng.range(0, 5000)),
                 3 => FileSpec::Size(rng.range(1, 9000)),
@@ -299,11 +306,11 @@ impl MapLife {
         let mut slots = 0usize; // number of Map ops so far = number of slots (dead or alive)
         for _ in 0..nops {
             let op = match rng.below(10) {
-                0..=3 => { slots += 1; LOp::Map { file: rng.below_usize(nfiles), mutable: rng.chance(2, 5), refuse: if rng.chance(1, 8) { Some(*rng.pick(&[libc::ENOMEM, libc::EAGAIN, libc::ENFILE, libc::EACCES, libc::ENODEV, libc::EINVAL])) } else if big && rng.chance(1, 8) { Some(-1) } else { None } } },
+                0..=3 => { slots += 1; LOp::Map { file: rng.below_usize(nfiles), mutable: rng.chance(2, 5), refuse: if rng.chance(1, 8) { Some(*rng.pick(&[libc::ENOMEM, libc::EAGAIN, libc::ENFILE, libc::EACCES, libc::ENODEV, libc::EINVAL])) } else if big && rng.chance(1, 8) { Some(-1) } else { None }, sticky: rng.bool() } },
                 4 | 5 if slots > 0 => LOp::Read { slot: rng.below_usize(slots) },
                 6 if slots > 0 => LOp::Write { slot: rng.below_usize(slots), n: rng.range_usize(1, 40), salt: rng.next() & 0xFFFF },
                 _ if slots > 0 => LOp::Drop { slot: rng.below_usize(slots) },
-                _ => { slots += 1; LOp::Map { file: rng.below_usize(nfiles), mutable: rng.bool(), refuse: None } },
+                _ => { slots += 1; LOp::Map { file: rng.below_usize(nfiles), mutable: rng.bool(), refuse: None, sticky: false } },
             };
             ops.push(op);
         }
@@ -315,7 +322,7 @@ impl MapLife {
         out.stats.evaluations = 1;
         let paths: Vec<PathBuf> = self.files.iter().map(|_| scratch::file("life")).collect();
         let r = self.run_inner(prop, &paths, &mut out.stats);
-        for p in paths.iter() { let _ = std::fs::remove_file(p); }
+        for p in paths.iter() { let _ = std::fs::remove_file(p); let _ = std::fs::remove_dir(p); }
         match r { Ok(()) => out, Err(viol) => out.fail(viol) }
     }
 
@@ -328,9 +335,24 @@ impl MapLife {
         // Create the files and the model of their content.
         let mut model: Vec<Option<Vec<u8>>> = Vec::new();
         let mut sparse_len: Vec<Option<u64>> = Vec::new();
+        // What is passed to MemoryMap::new (differs from `paths`, the name in /proc/self/maps, for unlinked files).
+        let mut map_paths: Vec<PathBuf> = paths.to_vec();
+        let mut held: Vec<Option<std::fs::File>> = Vec::new();
         for (i, f) in self.files.iter().enumerate() {
+            held.push(None);
             match f {
                 FileSpec::Missing => { let _ = std::fs::remove_file(&paths[i]); model.push(None); sparse_len.push(None); },
+                FileSpec::Dir => { std::fs::create_dir_all(&paths[i]).map_err(|e| v("harness", "mkdir", e.to_string()))?; model.push(None); sparse_len.push(None); },
+                FileSpec::Unlinked(n) => {
+                    use std::os::fd::AsRawFd;
+                    let c = crate::content::Content::new(*n as usize, crate::content::Pat::Random, 91 + i as u64).bytes();
+                    std::fs::write(&paths[i], &c).map_err(|e| v("harness", "write", e.to_string()))?;
+                    let f = std::fs::OpenOptions::new().read(true).write(true).open(&paths[i]).map_err(|e| v("harness", "open", e.to_string()))?;
+                    std::fs::remove_file(&paths[i]).map_err(|e| v("harness", "unlink", e.to_string()))?;
+                    map_paths[i] = PathBuf::from(format!("/proc/self/fd/{}", f.as_raw_fd()));
+                    held[i] = Some(f);
+                    model.push(Some(c)); sparse_len.push(None);
+                },
                 FileSpec::Size(n) => {
                     let c = crate::content::Content::new(*n as usize, crate::content::Pat::Random, 17 + i as u64).bytes();
                     std::fs::write(&paths[i], &c).map_err(|e| v("harness", "write", e.to_string()))?;
@@ -343,7 +365,7 @@ impl MapLife {
                 },
             }
         }
-        let size_of = |i: usize| -> Option<u64> { match &self.files[i] { FileSpec::Missing => None, FileSpec::Size(n) | FileSpec::Sparse(n) => Some(*n) } };
+        let size_of = |i: usize| -> Option<u64> { match &self.files[i] { FileSpec::Missing | FileSpec::Dir => None, FileSpec::Size(n) | FileSpec::Sparse(n) | FileSpec::Unlinked(n) => Some(*n) } };
         let mut slots: Vec<Option<Live>> = Vec::new();
         let mut sig: u64 = 0;
 
@@ -404,26 +426,42 @@ impl MapLife {
         for (k, op) in self.ops.iter().enumerate() {
             let step = format!("op {} {:?}", k, op);
             stats.steps += 1;
-            sig = crate::rng::mix(&[sig, match op { LOp::Map { mutable, refuse, file } => 1 + (*mutable as u64) * 2 + (refuse.is_some() as u64) * 4 + 8 * file_class(&self.files[*file]), LOp::Read { .. } => 100, LOp::Write { .. } => 101, LOp::Drop { .. } => 102 }]);
+            sig = crate::rng::mix(&[sig, match op { LOp::Map { mutable, refuse, file, sticky } => 1 + (*mutable as u64) * 2 + (refuse.is_some() as u64) * 4 + 8 * file_class(&self.files[*file]) + 1000 * (*sticky && refuse.is_some()) as u64, LOp::Read { .. } => 100, LOp::Write { .. } => 101, LOp::Drop { .. } => 102 }]);
             match op {
-                LOp::Map { file, mutable, refuse } => {
+                LOp::Map { file, mutable, refuse, sticky } => {
                     let mode = if *mutable { MappingMode::Mutable } else { MappingMode::ReadOnly };
                     // refuse = Some(-1): a real refusal by the kernel, provoked with RLIMIT_AS; otherwise the hook refuses with that errno.
                     let mut _as_limit: Option<AsLimit> = None;
-                    match refuse { Some(-1) => { _as_limit = Some(AsLimit::set(64 << 20)); }, Some(errno) => verif_io::fail_mmap_after(Some((0, *errno))), None => {} }
+                    match refuse {
+                        Some(-1) => { _as_limit = Some(AsLimit::set(64 << 20)); },
+                        Some(errno) => if *sticky { verif_io::fail_mmap_from(Some((0, *errno))) } else { verif_io::fail_mmap_after(Some((0, *errno))) },
+                        None => {},
+                    }
                     verif_io::start_map_log();
-                    let r = catch(|| MemoryMap::new(&paths[*file], mode));
+                    let r = catch(|| MemoryMap::new(&map_paths[*file], mode));
                     let log = verif_io::take_map_log();
-                    verif_io::fail_mmap_after(None);
+                    verif_io::fail_mmap_from(None);
                     drop(_as_limit);
                     let r = r.map_err(|p| v("map-panic", "MemoryMap::new", format!("{}: {}", step, p)))?;
                     let size = size_of(*file);
                     let refused = log.iter().any(|c| matches!(c, MapCall::Refused { .. }));
                     let kernel_failed = log.iter().any(|c| matches!(c, MapCall::Map { addr, .. } if *addr == usize::MAX));
+                    // A retry that succeeds after a refusal is legitimate: only "no mmap call succeeded" obliges the call to fail.
+                    let some_mapping = log.iter().any(|c| matches!(c, MapCall::Map { addr, .. } if *addr != usize::MAX));
                     if refused { stats.fault("M1-mmap-refused", 1); }
+                    if refused && *sticky { stats.fault("M1-mmap-refused (every attempt)", 1); }
                     if kernel_failed && *refuse == Some(-1) { stats.fault("M1-mmap-refused (real kernel, RLIMIT_AS)", 1); }
-                    let must_fail = match size { None => Some("the file does not exist"), Some(n) if n % 8 != 0 => Some("the file size is not a multiple of 8"), _ if refused => Some("mmap() was refused"), _ if kernel_failed => Some("mmap() returned MAP_FAILED"), _ => None };
-                    match size { None => stats.fault("M3-missing-file", 1), Some(0) => stats.fault("M2-empty-file", 1), Some(n) if n % 8 != 0 => stats.fault("M4-odd-size", 1), _ => {} }
+                    if kernel_failed && self.files[*file] == FileSpec::Dir { stats.fault("M1-mmap-refused (real kernel, directory)", 1); }
+                    let must_fail = match (&self.files[*file], size) {
+                        (FileSpec::Missing, _) => Some("the file does not exist"),
+                        (_, Some(n)) if n % 8 != 0 => Some("the file size is not a multiple of 8"),
+                        _ if !some_mapping && refused => Some("every mmap() call was refused"),
+                        _ if !some_mapping && kernel_failed => Some("mmap() returned MAP_FAILED"),
+                        (FileSpec::Dir, _) if !some_mapping => Some("it is a directory and nothing was mapped"),
+                        _ => None,
+                    };
+                    stats.probe_if(refused && some_mapping, "a refused mmap() followed by a successful retry");
+                    match size { None => stats.fault("M3-missing-file", (self.files[*file] == FileSpec::Missing) as u64), Some(0) => stats.fault("M2-empty-file", 1), Some(n) if n % 8 != 0 => stats.fault("M4-odd-size", 1), _ => {} }
                     match (r, must_fail) {
                         (Ok(m), Some(why)) => {
                             // Do not touch or drop a map built on a failed mmap.
@@ -434,7 +472,7 @@ impl MapLife {
                         (Err(e), None) => return Err(v("map-error", "MemoryMap::new", format!("{}: mapping a healthy file ({:?}) failed: {}", step, self.files[*file], e))),
                         (Ok(m), None) => {
                             if m.mode() != mode { return Err(v("mode", "MemoryMap::mode", step.clone())); }
-                            if m.filename() != paths[*file].as_path() { return Err(v("filename", "MemoryMap::filename", step.clone())); }
+                            if m.filename() != map_paths[*file].as_path() { return Err(v("filename", "MemoryMap::filename", step.clone())); }
                             let l = Live { map: m, file: *file, mutable: *mutable };
                             check_content(&l, &model, &step)?;
                             slots.push(Some(l));
@@ -478,7 +516,7 @@ impl MapLife {
                             let log = verif_io::take_map_log();
                             if log.iter().any(|c| matches!(c, MapCall::Unmap { ret, .. } if *ret != 0)) { stats.probe("munmap returned an error"); }
                             if was_mutable && sparse_len[file].is_none() {
-                                let on_disk = std::fs::read(&paths[file]).map_err(|e| v("harness", "read", e.to_string()))?;
+                                let on_disk = std::fs::read(&map_paths[file]).map_err(|e| v("harness", "read", e.to_string()))?;
                                 if &on_disk != model[file].as_ref().unwrap() { return Err(v("mutations-lost", "MemoryMap (Mutable)", format!("{}: after dropping the mutable map the file does not hold what was written through it", step))); }
                                 stats.probe("file checked after dropping a mutable map");
                             }
@@ -499,7 +537,7 @@ impl MapLife {
                 // Survivors stay readable.
                 for other in slots.iter().filter_map(|s| s.as_ref()) { check_content(other, &model, "final drops")?; }
                 if was_mutable && sparse_len[file].is_none() {
-                    let on_disk = std::fs::read(&paths[file]).map_err(|e| v("harness", "read", e.to_string()))?;
+                    let on_disk = std::fs::read(&map_paths[file]).map_err(|e| v("harness", "read", e.to_string()))?;
                     if &on_disk != model[file].as_ref().unwrap() { return Err(v("mutations-lost", "MemoryMap (Mutable)", "after the final drop the file does not hold what was written".to_string())); }
                 }
             }
@@ -509,6 +547,7 @@ impl MapLife {
             if !left.is_empty() { return Err(v("still-mapped-after-drop", "MemoryMap::drop", format!("all maps dropped, yet file {} ({:?}) is still mapped in {} region(s)", fi, self.files[fi], left.len()))); }
         }
         stats.sigs.insert(sig);
+        drop(held);
         let _ = BTreeMap::<u8, u8>::new();
         Ok(())
     }
@@ -538,6 +577,7 @@ impl MapLife {
         for (i, f) in self.files.iter().enumerate() {
             let smaller: Vec<FileSpec> = match f {
                 FileSpec::Sparse(n) => vec![FileSpec::Size(4104), FileSpec::Size((*n).min(1 << 20))],
+                FileSpec::Unlinked(n) => vec![FileSpec::Size(*n), FileSpec::Unlinked(8)],
                 FileSpec::Size(n) if *n > 4104 => vec![FileSpec::Size(4104), FileSpec::Size(8192), FileSpec::Size(n / 2 / 8 * 8)],
                 FileSpec::Size(n) if *n > 8 => vec![FileSpec::Size(8), FileSpec::Size(n / 2 / 8 * 8)],
                 _ => vec![],
@@ -545,10 +585,11 @@ impl MapLife {
             for sm in smaller { let mut s = self.clone(); s.files[i] = sm; out.push(s); }
         }
         for (i, op) in self.ops.iter().enumerate() {
-            if let LOp::Map { file, mutable, refuse } = op {
-                if refuse.is_some() { let mut s = self.clone(); s.ops[i] = LOp::Map { file: *file, mutable: *mutable, refuse: None }; out.push(s); }
-                if *mutable { let mut s = self.clone(); s.ops[i] = LOp::Map { file: *file, mutable: false, refuse: *refuse }; out.push(s); }
-                if *file != 0 { let mut s = self.clone(); s.ops[i] = LOp::Map { file: 0, mutable: *mutable, refuse: *refuse }; out.push(s); }
+            if let LOp::Map { file, mutable, refuse, sticky } = op {
+                if refuse.is_some() { let mut s = self.clone(); s.ops[i] = LOp::Map { file: *file, mutable: *mutable, refuse: None, sticky: false }; out.push(s); }
+                if refuse.is_some() && *sticky { let mut s = self.clone(); s.ops[i] = LOp::Map { file: *file, mutable: *mutable, refuse: *refuse, sticky: false }; out.push(s); }
+                if *mutable { let mut s = self.clone(); s.ops[i] = LOp::Map { file: *file, mutable: false, refuse: *refuse, sticky: *sticky }; out.push(s); }
+                if *file != 0 { let mut s = self.clone(); s.ops[i] = LOp::Map { file: 0, mutable: *mutable, refuse: *refuse, sticky: *sticky }; out.push(s); }
             }
         }
         out
@@ -584,6 +625,8 @@ impl Drop for AsLimit {
 fn file_class(f: &FileSpec) -> u64 {
     match f {
         FileSpec::Missing => 0,
+        FileSpec::Dir => 7,
+        FileSpec::Unlinked(_) => 8,
         FileSpec::Sparse(_) => 1,
         FileSpec::Size(0) => 2,
         FileSpec::Size(n) if n % 8 != 0 => 3,
